@@ -1651,12 +1651,17 @@ func (p *PubSub) publishMessage(msg *Message) {
 }
 
 func (p *PubSub) publishMessageBatch(batchAndOpts messageBatchAndPublishOptions) {
+	toRouter := make([]*Message, 0, len(batchAndOpts.messages))
 	for _, msg := range batchAndOpts.messages {
 		p.tracer.DeliverMessage(msg)
 		p.notifySubs(msg)
+		// like publishMessage: local-only publications never leave the node
+		if !msg.Local {
+			toRouter = append(toRouter, msg)
+		}
 	}
 	// We type checked when pushing the batch to the channel
-	p.rt.(BatchPublisher).PublishBatch(batchAndOpts.messages, batchAndOpts.opts)
+	p.rt.(BatchPublisher).PublishBatch(toRouter, batchAndOpts.opts)
 }
 
 type addTopicReq struct {
